@@ -15,6 +15,7 @@ package main
 
 import (
 	"bytes"
+	"context"
 	"encoding/json"
 	"flag"
 	"fmt"
@@ -27,6 +28,7 @@ import (
 	"strconv"
 	"strings"
 	"sync"
+	"time"
 
 	"gtverif/internal/gal"
 )
@@ -205,6 +207,14 @@ var stringPool = []string{"", "a", "B", "ab", "a b", "b", "é", "Z9", "a\x00", "
 // comparison on the native values (independent of anything gsort generates).
 func fillValues(r *rand.Rand, f *Field, idx int) {
 	k := 2 + r.IntN(2)
+	if wide {
+		// the universe (product of the fields' values) is judged pair by pair inside Coq: five
+		// fields vary, the others are constant keys
+		k = 2
+		if idx%10 >= 5 {
+			k = 1
+		}
+	}
 	switch f.Kind {
 	case "string":
 		p := pick(r, len(stringPool), k)
@@ -242,10 +252,17 @@ func fillValues(r *rand.Rand, f *Field, idx int) {
 			e string
 			v float64
 		}
+		// every special value but NaN (excluded by the property): infinities, both zeros,
+		// subnormals, the largest finite values
 		cand := []fv{{"math.Inf(-1)", math.Inf(-1)}, {"-1.5", -1.5}, {"math.Copysign(0, -1)", math.Copysign(0, -1)},
 			{"0", 0}, {"0.25", 0.25}, {"2.5", 2.5}, {"16777216", 16777216}, {"math.Inf(1)", math.Inf(1)}}
 		if f.GoType == "float64" {
-			cand = append(cand, fv{"1e300", 1e300}, fv{"-1e-300", -1e-300})
+			cand = append(cand, fv{"1e300", 1e300}, fv{"-1e-300", -1e-300},
+				fv{"math.SmallestNonzeroFloat64", math.SmallestNonzeroFloat64}, fv{"-math.SmallestNonzeroFloat64", -math.SmallestNonzeroFloat64},
+				fv{"math.MaxFloat64", math.MaxFloat64}, fv{"-math.MaxFloat64", -math.MaxFloat64}, fv{"2.2250738585072014e-308", 2.2250738585072014e-308})
+		} else {
+			cand = append(cand, fv{"math.SmallestNonzeroFloat32", float64(float32(math.SmallestNonzeroFloat32))}, fv{"-math.SmallestNonzeroFloat32", -float64(float32(math.SmallestNonzeroFloat32))},
+				fv{"math.MaxFloat32", float64(float32(math.MaxFloat32))}, fv{"-math.MaxFloat32", -float64(float32(math.MaxFloat32))})
 		}
 		p := pick(r, len(cand), k)
 		vals := make([]float64, k)
@@ -256,7 +273,9 @@ func fillValues(r *rand.Rand, f *Field, idx int) {
 		f.Ranks = ranksOf(k, func(i, j int) bool { return vals[i] < vals[j] })
 	case "bool":
 		f.GoType = "bool"
-		if r.IntN(2) == 0 {
+		if k == 1 {
+			f.Values, f.Ranks = []string{"true"}, []int64{1}
+		} else if r.IntN(2) == 0 {
 			f.Values, f.Ranks = []string{"false", "true"}, []int64{0, 1}
 		} else {
 			f.Values, f.Ranks = []string{"true", "false"}, []int64{1, 0}
@@ -290,9 +309,19 @@ func fillValues(r *rand.Rand, f *Field, idx int) {
 
 // ---------------------------------------------------------------- random definitions
 
+// wide: the widened search after a broken tie / a model-only difference goes beyond the sizes and
+// shapes of the regular streams: 6-9 tagged fields, 4-6 sorters per struct, long and non-ASCII
+// identifiers (the caller also raises the slice lengths of the sort runs)
+var wide bool
+
+var wideNames = []string{"Größe", "Ünïcödé", "名前", "Ω", "ÉtatCivil", "AVeryLongFieldNameThatGoesOnAndOnAndOnAndOnAndOnAndOnAndOnAndOn", "Ñandú", "_under", "X_1", "Þorn"}
+
 func randomDef(r *rand.Rand, n int, nearmiss bool) Def {
 	d := Def{Kind: "random", Pkg: fmt.Sprintf("p%d", n), Type: fmt.Sprintf("T%d", n)}
 	nf := 1 + r.IntN(5)
+	if wide {
+		nf = 6 + r.IntN(4)
+	}
 	kinds := []string{"string", "int", "uint", "float", "bool", "bool", "named"}
 	// naming: plain (F0, f1, S3a ...) or, a third of the time, names that are prefixes / suffixes
 	// of one another and end in digits (field names, sorter names) with priorities out of a pool
@@ -304,6 +333,8 @@ func randomDef(r *rand.Rand, n int, nearmiss bool) Def {
 	for i := 0; i < nf; i++ {
 		f := Field{Kind: kinds[r.IntN(len(kinds))]}
 		switch {
+		case wide && r.IntN(2) == 0:
+			f.Name = wideNames[i%len(wideNames)] + fmt.Sprint(i)
 		case confusable:
 			f.Name = fieldPool[i]
 		case r.IntN(4) == 0:
@@ -318,11 +349,17 @@ func randomDef(r *rand.Rand, n int, nearmiss bool) Def {
 	// sorters: 1-3 per struct, value or pointer form, each over a non-empty subset of the
 	// fields with random distinct priorities; every field is used by at least one sorter
 	ns := 1 + r.IntN(3)
+	if wide {
+		ns = 4 + r.IntN(3)
+	}
 	names := make([]string, ns)
 	for s := range names {
 		names[s] = fmt.Sprintf("S%d%c", n, 'a'+s)
 		if confusable {
 			names[s] = sorterPool[s]
+		}
+		if wide && r.IntN(2) == 0 {
+			names[s] = "By" + wideNames[(s+3)%len(wideNames)] + fmt.Sprint(n)
 		}
 		if r.IntN(2) == 0 {
 			names[s] = "*" + names[s]
@@ -707,6 +744,7 @@ import (
 	"runtime"
 	"sort"
 	"sync"
+	"time"
 )
 
 // Driver gives access to one generated slice type.
@@ -729,6 +767,7 @@ type Config struct {
 	Limit  int // max number of slices enumerated exhaustively per sorter
 	Runs   int
 	MaxLen int
+	WatchdogSec int
 }
 
 // Run is one sort observation.
@@ -850,7 +889,7 @@ func (d *Driver) run(cfg Config, seed uint64) (res Result) {
 		for p := 0; p < n; p++ {
 			d.Set(s, p, tup[0], p)
 		}
-		if res.Exhaustive || n <= 2 {
+		if res.Exhaustive || (n == 1) || (n == 2 && nv*nv <= cfg.Limit) {
 			for {
 				observe(s, e)
 				res.Slices++
@@ -933,13 +972,26 @@ func Main() {
 	results := make([]Result, len(drivers))
 	var wg sync.WaitGroup
 	sem := make(chan struct{}, runtime.NumCPU())
+	// every driver runs under a watchdog: a generated Less / Swap that does not return (or a sort
+	// that does not terminate on it) is recorded as such for its sorter, the others go on
+	limit := time.Duration(cfg.WatchdogSec) * time.Second
+	if limit <= 0 {
+		limit = 5 * time.Minute
+	}
 	for i, d := range drivers {
 		wg.Add(1)
 		go func(i int, d *Driver) {
 			defer wg.Done()
 			sem <- struct{}{}
 			defer func() { <-sem }()
-			results[i] = d.run(cfg, cfg.Seed*1000003+uint64(i))
+			done := make(chan Result, 1)
+			go func() { done <- d.run(cfg, cfg.Seed*1000003+uint64(i)) }()
+			select {
+			case r := <-done:
+				results[i] = r
+			case <-time.After(limit):
+				results[i] = Result{Key: d.Key, Panic: "timeout: Less / Swap / sort did not return within the watchdog limit"}
+			}
 		}(i, d)
 	}
 	wg.Wait()
@@ -992,13 +1044,25 @@ func writeFile(p, s string) {
 	must(os.WriteFile(p, []byte(s), 0o644))
 }
 
+// runCmd runs a child under a watchdog (a generator or a generated program that does not return
+// is killed and reported with exit code 124).
 func runCmd(dir string, env []string, name string, args ...string) (int, string) {
-	c := exec.Command(name, args...)
+	return runCmdT(dir, env, 20*time.Minute, name, args...)
+}
+
+func runCmdT(dir string, env []string, limit time.Duration, name string, args ...string) (int, string) {
+	ctx, cancel := context.WithTimeout(context.Background(), limit)
+	defer cancel()
+	c := exec.CommandContext(ctx, name, args...)
+	c.WaitDelay = 5 * time.Second
 	c.Dir = dir
 	c.Env = append(append([]string{}, os.Environ()...), env...)
 	var buf bytes.Buffer
 	c.Stdout, c.Stderr = &buf, &buf
 	err := c.Run()
+	if ctx.Err() == context.DeadlineExceeded {
+		return 124, buf.String() + "\n(killed: did not finish within " + limit.String() + ")"
+	}
 	if err == nil {
 		return 0, buf.String()
 	}
@@ -1045,7 +1109,7 @@ func runFarm(work, gsortBin string, defs []Def, cfg map[string]any) ([]genResult
 			dir := filepath.Join(work, d.Pkg)
 			writeFile(filepath.Join(dir, "def.go"), defSource(d))
 			// the way go:generate runs it: cwd = package dir, GOFILE = the file
-			rc, log := runCmd(dir, []string{"GOFILE=def.go", "PWD=" + dir, "GOPACKAGE=" + d.Pkg}, gsortBin, "-types", d.Type)
+			rc, log := runCmdT(dir, []string{"GOFILE=def.go", "PWD=" + dir, "GOPACKAGE=" + d.Pkg}, 3*time.Minute, gsortBin, "-types", d.Type)
 			g := genResult{ok: rc == 0, log: log}
 			if b, err := os.ReadFile(filepath.Join(dir, "def.gsort.go")); err == nil && rc == 0 {
 				blocks := sorterBlocks(string(b))
@@ -1278,6 +1342,8 @@ func main() {
 	limit := flag.Int("limit", 6000000, "max slices enumerated exhaustively per sorter")
 	runs := flag.Int("runs", 8, "sort runs per sorter")
 	maxLen := flag.Int("maxlen", 200, "max slice length of the sort runs")
+	flag.BoolVar(&wide, "wide", false, "widened search: 6-9 tagged fields, 4-6 sorters, long / non-ASCII names")
+	watchdog := flag.Int("watchdog", 300, "seconds after which a driver (one sorter's observations) is given up")
 	extra := flag.String("extra", "", "JSON files (comma separated) with further definitions run first (corpus/C08)")
 	flag.Parse()
 	if *gsortBin == "" || *work == "" {
@@ -1335,7 +1401,7 @@ func main() {
 		}
 		seen[defs[i].Pkg] = true
 	}
-	cfg := map[string]any{"Seed": *seed, "Limit": *limit, "Runs": *runs, "MaxLen": *maxLen}
+	cfg := map[string]any{"Seed": *seed, "Limit": *limit, "Runs": *runs, "MaxLen": *maxLen, "WatchdogSec": *watchdog}
 	gens, res, errText := runFarm(*work, *gsortBin, defs, cfg)
 	if errText != "" {
 		fmt.Fprintln(os.Stderr, errText)
